@@ -166,7 +166,10 @@ func (c *fctx) taintCalls(n ast.Node, en *env) *env {
 	ast.Inspect(n, func(m ast.Node) bool {
 		if x, ok := m.(*ast.CallExpr); ok {
 			if fn, _ := c.t.calleeOf(x); fn != nil {
-				for _, a := range x.Args {
+				for i, a := range x.Args {
+					if c.t.onlyReads03(fn, i) { // [ext:T03] the callee only reads the elements / the length of this parameter
+						continue
+					}
 					if tv, ok := c.t.info.Types[a]; ok && tv.Type != nil {
 						if _, isSlice := tv.Type.Underlying().(*types.Slice); isSlice {
 							if key, ok := c.aliasSource(a, en); ok && key != "?call" {
@@ -331,6 +334,7 @@ func (c *fctx) stmt(s ast.Stmt, en *env, lc *lctx, next kont) string {
 				t.fail(s, "pointer variable %s", it.id.Name)
 			}
 			if it.val == nil {
+				c.zeroOK03(g, s) // [ext:T03] no zero value of a struct with a pointer field
 				en2, name := c.declare(en, obj, g)
 				return fmt.Sprintf("let %s := %s in\n%s", name, g.zero(), rec(i+1, en2))
 			}
@@ -346,7 +350,7 @@ func (c *fctx) stmt(s ast.Stmt, en *env, lc *lctx, next kont) string {
 		}
 		return rec(0, en)
 	case *ast.ReturnStmt:
-		c.checkOrder(s)
+		c.checkOrder(c.retForOrder03(x)) // [ext:T03] s, without the pointers that become interface values
 		if len(x.Results) == 1 && len(c.fi.results) > 1 {
 			call, ok := ast.Unparen(x.Results[0]).(*ast.CallExpr)
 			if !ok {
@@ -362,7 +366,7 @@ func (c *fctx) stmt(s ast.Stmt, en *env, lc *lctx, next kont) string {
 				c.markNilAs20(r)
 			}
 		}
-		return c.args(x.Results, en, func(vs []string) string { return lc.ret(c.retTerm(en, vs)) })
+		return c.retArgs03(x.Results, en, func(vs []string) string { return lc.ret(c.retTerm(en, vs)) }) // [ext:T03] c.args + interface results
 	case *ast.BranchStmt:
 		if x.Label != nil {
 			t.fail(s, "%s with a label", x.Tok)
@@ -400,6 +404,7 @@ func (c *fctx) retTerm(en *env, vs []string) string {
 	for _, g := range c.t.ordered20(c.fi.gwrites) { // [ext:T20] written package-level state is returned
 		parts = append(parts, c.globalName20(g, en, c.fi.decl))
 	}
+	parts = append(parts, c.outNames03(en)...) // [ext:T03] slice parameters written in place
 	if len(parts) == 0 {
 		return tuple(vs)
 	}
@@ -759,7 +764,7 @@ func (t *Translator) emitFunc(fi *funcInfo) string {
 		var name string
 		en, name = c.declare(en, p, g)
 		params = append(params, fmt.Sprintf("(%s : %s)", name, g.coq()))
-		if g.k == kSlice {
+		if g.k == kSlice && !t.isOut03(fi, p) { // [ext:T03] unless it is written in place and returned
 			en = en.share(name) // the caller still holds the array
 		}
 	}
@@ -775,6 +780,7 @@ func (t *Translator) emitFunc(fi *funcInfo) string {
 	for _, g := range t.ordered20(fi.gwrites) { // [ext:T20]
 		stateT = append(stateT, g.ty.coq())
 	}
+	stateT = append(stateT, t.outTypes03(fi)...) // [ext:T03]
 	if len(stateT) > 0 {
 		if len(rts) > 0 {
 			stateT = append(stateT, rt)
@@ -798,6 +804,8 @@ func (t *Translator) emitFunc(fi *funcInfo) string {
 	if c.tailParam != "" {
 		params = append(params, c.tailParam)
 	}
-	return fmt.Sprintf("(* func %s   (%s) *)\nDefinition %s %s : M %s :=\n%s.\n", fi.goName, t.pos(fi.decl),
+	params, fi.nExtra03 = append(params, c.extra03...), len(c.extra03) // [ext:T03]
+	notes := c.notesComment03()                                        // [ext:T03]
+	return fmt.Sprintf("(* func %s   (%s) *)\n%sDefinition %s %s : M %s :=\n%s.\n", fi.goName, t.pos(fi.decl), notes,
 		fi.name, strings.Join(params, " "), rt, strings.TrimRight(indentCoq(body), "\n"))
 }
